@@ -310,6 +310,15 @@ class Interp(object):
         allowed = kw.pop("_allowed", ())
         return self.ctx.call("C11.%s" % self.opname, fn, *args, _allowed=allowed, **kw)
 
+    def refused(self, exc, fn, *args, **kw):
+        """Call fn; -> (True, None) when it refused with the documented error `exc`, else (False, result).  Used where a
+        refusal is the only acceptable alternative to doing the work completely (two rows colliding on one taxon)."""
+        try:
+            return False, self.lib(fn, *args, _allowed=(exc,), **kw)
+        except exc:
+            self.ctx.cls("refusal:%s:%s" % (self.opname, exc.__name__))
+            return True, None
+
     def expect_error(self, exc, what, fn, *args, **kw):
         """The documented refusal `exc` must be raised."""
         try:
@@ -1324,14 +1333,14 @@ class Interp(object):
             S = self.pick_mat(a["s"])
             if target is None:
                 target = S.ns
-            if target is not S.ns and self.rows_collide(S, target):
-                pre = list(target)
-                self.expect_error(self.err.TaxonNamespaceReconstructionError,
-                                  "copying a matrix whose rows collide on one taxon in the new namespace",
-                                  ds.new_char_matrix, self.mtype, S.m, **kw)
-                return self.check_mapping([], target, pre, "unify", universe=self.universe_of(self.nrec(S.ns).taxa), allow_extra=True)
             pre = list(target)
-            m = self.lib(ds.new_char_matrix, self.mtype, S.m, **kw)
+            if target is not S.ns and self.rows_collide(S, target):
+                # two rows would land on one taxon: refusing is fine, silently keeping one of them is not
+                no, m = self.refused(self.err.TaxonNamespaceReconstructionError, ds.new_char_matrix, self.mtype, S.m, **kw)
+                if no:
+                    return self.check_mapping([], target, pre, "unify", universe=self.universe_of(self.nrec(S.ns).taxa), allow_extra=True)
+            else:
+                m = self.lib(ds.new_char_matrix, self.mtype, S.m, **kw)
             rec = self.check_matrix_copy(S, m, target, pre)
         else:
             known = set(self.nss)
@@ -1410,7 +1419,7 @@ class Interp(object):
             V(M.m.taxon_namespace is X, "matrix_namespace_identity", "matrix not moved by unify_taxon_namespaces")
             M.ns = X
             new = self.read_rows(M.m)
-            V(set(new) == set(olds), "matrix_rows_lost", lambda: "rows %r -> %r" % (sorted(olds), sorted(new)))
+            V(set(new) == set(olds), "matrix_rows_silently_dropped_or_merged", lambda: "rows %r -> %r" % (sorted(olds), sorted(new)))
             M.rows = new
             for c, o in olds.items():
                 pairs.append((o, o.label, new[c]))
@@ -1442,7 +1451,7 @@ class Interp(object):
         V = self.V
         V(m is not S.m and m.taxon_namespace is target and isinstance(m, self.mtype), "matrix_namespace_identity", "matrix copy")
         got = self.read_rows(m)
-        V(set(got) == set(S.rows), "matrix_rows_lost", lambda: "copy has rows %r, source %r" % (sorted(got), sorted(S.rows)))
+        V(set(got) == set(S.rows), "matrix_rows_silently_dropped_or_merged", lambda: "copy has rows %r, source %r" % (sorted(got), sorted(S.rows)))
         pairs = [(o, o.label, got[c]) for c, o in S.rows.items()]
         self.note_import(S.ns, S.born, target, 0, [o.label for o in S.rows.values()], pre)
         if target is S.ns:
@@ -1530,18 +1539,22 @@ class Interp(object):
         if unify and self.rows_collide(M, X):
             if protected:
                 return self.skip("matrix_rows_would_collide")
-            self.expect_error(self.err.TaxonNamespaceReconstructionError, "migration putting two rows on one taxon", call)
-            self.mats.remove(M)
-            # half-migrated object: its namespaces may have grown; adopt what is there
-            for r in self.nss.values():
-                r.taxa = list(r.ns)
-            return
-        pre = list(X)
-        olds = dict(M.rows)
-        self.lib(call)
+            pre = list(X)
+            olds = dict(M.rows)
+            no, _ = self.refused(self.err.TaxonNamespaceReconstructionError, call)
+            if no:
+                self.mats.remove(M)
+                # half-migrated object, dropped from the model; its namespaces may have grown: adopt what is there
+                for r in self.nss.values():
+                    r.taxa = list(r.ns)
+                return
+        else:
+            pre = list(X)
+            olds = dict(M.rows)
+            self.lib(call)
         self.V(M.m.taxon_namespace is X, "matrix_namespace_identity", "matrix kept its old namespace")
         new = self.read_rows(M.m)
-        self.V(set(new) == set(olds), "matrix_rows_lost", lambda: "rows %r -> %r" % (sorted(olds), sorted(new)))
+        self.V(set(new) == set(olds), "matrix_rows_silently_dropped_or_merged", lambda: "rows %r -> %r" % (sorted(olds), sorted(new)))
         pairs = [(o, o.label, new[c]) for c, o in olds.items()]
         if M.rows:
             self.ctx.cls("matrix_migrate:" + (self.label_relation([o.label for o in olds.values()], X) if pre else "into_empty"))
@@ -1627,14 +1640,14 @@ class Interp(object):
             return self.skip("full")
         S = self.pick_mat(a["m"])
         X = self.pick_ns(a["ns"])
-        if X is not S.ns and self.rows_collide(S, X):
-            pre = list(X)
-            self.expect_error(self.err.TaxonNamespaceReconstructionError,
-                              "copying a matrix whose rows collide on one taxon in the new namespace",
-                              self.mtype, S.m, taxon_namespace=X)
-            return self.check_mapping([], X, pre, "unify", universe=self.universe_of(self.nrec(S.ns).taxa), allow_extra=True)
         pre = list(X)
-        m = self.lib(self.mtype, S.m, taxon_namespace=X)
+        if X is not S.ns and self.rows_collide(S, X):
+            # two rows would land on one taxon: refusing is fine, silently keeping one of them is not
+            no, m = self.refused(self.err.TaxonNamespaceReconstructionError, self.mtype, S.m, taxon_namespace=X)
+            if no:
+                return self.check_mapping([], X, pre, "unify", universe=self.universe_of(self.nrec(S.ns).taxa), allow_extra=True)
+        else:
+            m = self.lib(self.mtype, S.m, taxon_namespace=X)
         self.mats.append(self.check_matrix_copy(S, m, X, pre))
 
     # -- loose trees -----------------------------------------------------------------------------------------
